@@ -9,7 +9,7 @@ pub const DEF: PropDef = PropDef {
     id: "C02",
     rule: "programs = control-flow backbone (calls/returns, recursion, locals incl. re-initialisation inside loops and declarations under untaken branches, do/begin loops, break, case, variable stores) + snippets for over/rot/swap/dup/drop, vector/map/tag builders, foreach over vectors and maps, let destructuring, late words, collect/unbox, bit-string cursor reads (open-bitstr u8 bits seek close-bitstr), emit; no meta blocks. 1 case in 4 is instead a straight-line program over the whole native dictionary (every word of C13's typed table with literal arguments that make it succeed, a binary input open). \
 The program is compiled with recording switched on (before or after compile) and driven by a generated walk of Fwd(a)/Back(b) moves inside [0, horizon] where horizon = the number of consecutive successful steps (measured on a throw-away clone). \
-Oracle (history invariant): the first time a position is reached its state (ip, whole data stack, call frames with locals, loop frames with their items, builder marks, every heap cell) is stored; after every single rnext() and every single re-executed next() the state must equal the stored state of the new position. Every walk ends with a full rewind to position 0 (where one more rnext() must change nothing) and a full replay to the farthest position. \
+Oracle (history invariant): the first time a position is reached its state (ip, whole data stack, call frames with locals, loop frames with their items, builder marks, every heap cell) is stored; after every single rnext() and every single re-executed next() the state must equal the stored state of the new position. Every walk ends with a full rewind to position 0 (where one more rnext() must change nothing) and a full replay to the farthest position. When the program's next step then fails (1 program in 3 has a failing tail), a second program is compiled, stepped 3 forward and 3 back: each position must be restored exactly - what the failed instruction changed before failing stays with the failed step. \
 Non-trivial = the walk has a Back of >=2 steps followed by a Fwd and the program executes a call, loop iteration, break, local, store, builder or cursor move; distinct = hash of program and walk",
     assumptions: &["instruction meter, captured stdout, last error and the log itself are not part of the compared state (the statement does not list them)"],
     max_len: 700,
@@ -46,7 +46,8 @@ fn opname(xs: &Xstate, ip: usize) -> String {
 pub fn case(ch: &mut Choices, ctx: &CaseCtx) -> CaseOut {
     let mut out = CaseOut::default();
     let big = ctx.tier_thorough;
-    let p = if ch.chance(1, 4) { ext::dictionary(ch, if big { 10 } else { 5 }) } else { ext::generate(ch, &ext::ExtOpts { meta: false, failing: false, max_items: if big { 8 } else { 4 }, backbone_nodes: if big { 50 } else { 20 } }) };
+    let fail_tail = ch.chance(1, 3);
+    let p = if ch.chance(1, 4) { ext::dictionary(ch, if big { 10 } else { 5 }) } else { ext::generate(ch, &ext::ExtOpts { meta: false, failing: fail_tail, max_items: if big { 8 } else { 4 }, backbone_nodes: if big { 50 } else { 20 } }) };
     let mut xs = xs::fresh();
     xs.intercept_output(true).unwrap();
     xs.set_insn_limit(Some(200_000)).unwrap();
@@ -180,6 +181,53 @@ pub fn case(ch: &mut Choices, ctx: &CaseCtx) -> CaseOut {
             }
         }
     }
+    // ---- a step that fails, then another program stepped forward and back ---------------------------------
+    // (the failed instruction keeps whatever it changed before failing; those changes belong to the failed step and
+    // must not be undone together with a later instruction)
+    let mut after_failure = false;
+    if fail.is_none() && pos == horizon && horizon < cap && xs.is_running() {
+        if let Ok(Err(_)) = guard(|| xs.next()) {
+            let second = ["11 22 swap drop", "5 dup drop drop", "[ 1 2 ] length drop"][ch.below(3)];
+            if let Ok(Ok(())) = guard(|| xs.compile(second)) {
+                after_failure = true;
+                walk.push(format!("the next step fails; then `{}` is compiled, stepped 3 forward and 3 back", second));
+                let mut t: Vec<Vec<(&'static str, String)>> = vec![dump(&xs)];
+                for k in 0..3 {
+                    match guard(|| xs.next()) {
+                        Ok(Ok(())) => t.push(dump(&xs)),
+                        Ok(Err(e)) => {
+                            fail = Some(("a program submitted after a failed step fails".to_string(), format!("step {}: {}", k, xs::render_err(&e))));
+                            break;
+                        }
+                        Err(pm) => {
+                            fail = Some((format!("panic: {}", pm), "stepping the second program".to_string()));
+                            break;
+                        }
+                    }
+                }
+                if fail.is_none() {
+                    for k in (0..3).rev() {
+                        match guard(|| xs.rnext()) {
+                            Ok(Ok(())) => {
+                                if let Some((sec, got, want)) = first_diff(&dump(&xs), &t[k]) {
+                                    fail = Some((format!("undoing a step taken after a failed step: {} not restored", sec), format!("after rnext {} -> {} of the second program: {} is\n  {}\nbut was\n  {}", k + 1, k, sec, got, want)));
+                                    break;
+                                }
+                            }
+                            Ok(Err(e)) => {
+                                fail = Some(("undoing a step taken after a failed step: rnext fails".to_string(), xs::render_err(&e)));
+                                break;
+                            }
+                            Err(pm) => {
+                                fail = Some((format!("panic: {}", pm), "rnext in the second program".to_string()));
+                                break;
+                            }
+                        }
+                    }
+                }
+            }
+        }
+    }
     let render = format!("{}\nhorizon {} steps; walk: {}", render0, horizon, walk.join(", "));
     if let Some((sig, detail)) = fail {
         out.fail(sig, format!("{}\n{}", detail, render));
@@ -189,6 +237,9 @@ pub fn case(ch: &mut Choices, ctx: &CaseCtx) -> CaseOut {
     out.nontrivial = back2_then_fwd && interesting;
     for f in &p.features {
         out.class(f);
+    }
+    if after_failure {
+        out.class("failed-step-then-second-program-stepped-back");
     }
     if back2_then_fwd {
         out.class("back>=2-then-forward");
